@@ -99,6 +99,13 @@ def pacman_params(tier):
     if tier != "thorough":
         yield dict(kind="pacman", names=["a"], state="present", update_cache=True, upgrade=True)
         yield dict(kind="pacman", names=[], state="sync", update_cache=True, upgrade=False)
+    # `force: true` (removal without dependency checks, refresh of all databases) changes HOW pacman is asked, never what
+    # the task reports: the same cases again with it
+    for names in ([], ["a"], ["a", "d"]):
+        for st in ("present", "absent", "sync"):
+            for uc in (False, True):
+                yield dict(kind="pacman", names=names, state=st, update_cache=uc, upgrade=False, force=True)
+    yield dict(kind="pacman", names=["a"], state="present", update_cache=True, upgrade=True, force=True)
 
 
 def pacman_sx(db, tasks_checks):
